@@ -557,6 +557,16 @@ theorem cancel_inv {s s' : State} {pid : Nat} {who : Addr} (hi : Inv s) (h : can
                 have := noRec_depsNot hi.recs d hd
                 rw [isOpenId_dropProp_other this.2]; exact this.1
 
+/-- the only way a deposit with a foreign denomination succeeds is not to carry one -/
+theorem depositX_ok {s s' : State} {pid who fx other : Nat} (h : depositX s pid who fx other = .ok s') :
+    other = 0 ∧ deposit s pid who fx = .ok s' := by
+  unfold depositX at h
+  split at h
+  · rename_i h0; exact ⟨by simpa using h0, h⟩
+  · split at h
+    · cases h
+    · split at h <;> cases h
+
 theorem step_inv (h1 : inactiveSettleShapeOk = true) (h2 : settleShapeOk = true) (h3 : execInCacheCtx = true)
     {s : State} (op : Op) (hi : Inv s) : Inv (step s op).1 := by
   cases op with
@@ -576,6 +586,16 @@ theorem step_inv (h1 : inactiveSettleShapeOk = true) (h2 : settleShapeOk = true)
     simp only [step, Model.C15.ofExcept]
     split
     · rename_i s' h
+      unfold deposit at h
+      split at h
+      · cases h
+      · exact addDeposit_inv hi h
+    · exact hi
+  | depositX pid who fx other =>
+    simp only [step, Model.C15.ofExcept]
+    split
+    · rename_i s' h
+      have h := (depositX_ok h).2
       unfold deposit at h
       split at h
       · cases h
